@@ -243,6 +243,8 @@ class Engine:
         self.undecided_branches = 0
         self.writes = 0
         self.no_merge_nodes = set()
+        self._merge_fail = {}
+        self.merge_fail_limit = 4
         self._merge_node = None
         self.loop_hooks = {}                     # (function, loop ordinal) -> hook(eng, stmt, env, globals) -> handled?
         sym.PROVER[0] = self.prove
@@ -262,6 +264,27 @@ class Engine:
         self.inputs[name] = var
         self.all_inputs[name] = var
         return v
+
+    # ---------------- ownership tracking (C20): host objects that are not part of the unit's symbolic state
+    def _is_foreign_mutable(self, v):
+        if isinstance(v, (list, dict, set, bytearray)):
+            return not any(v is h for h in self.heap)
+        if isinstance(v, (int, str, bytes, tuple, frozenset, float, type(None), type, types.ModuleType, types.FunctionType,
+                          types.BuiltinFunctionType, types.MethodType, enum.Enum, property, staticmethod, classmethod, range,
+                          SymInt, SymBool, Obj)):
+            return False
+        if hasattr(v, 'snap') or hasattr(v, 'sym_class') or hasattr(v, 'sym_setattr') or callable(v):
+            return False           # engine model objects, callables
+        return hasattr(v, '__dict__')
+
+    def note_read(self, how, name, v):
+        if id(v) in self.subst:
+            return
+        if self._is_foreign_mutable(v):
+            self.foreign_reads.setdefault('%s %s (%s)' % (how, name, type(v).__name__), v)
+
+    def note_write(self, how, o):
+        self.foreign_writes.append('%s on %s' % (how, o.cls.__name__ if isinstance(o, Obj) else type(o).__name__))
 
     def register(self, o):
         self.writes += 1
@@ -633,6 +656,9 @@ class Engine:
             self.model_hook = None
             self.small_model_hints = None
             self.depth = 0
+            self.foreign_reads = {}        # mutable host objects outside the unit's state that the code read: description -> object
+            self.foreign_writes = []       # ... that the code wrote (ownership / frame violations)
+            self.foreign_store = {}
             try:
                 data = thunk(self)
                 res = PathResult(list(self.prefix[:self.pos]), list(self.path.pc), 'ok', None, self.path.unpred, data)
@@ -747,7 +773,12 @@ class Engine:
         if not mergeable:
             self.stats['merge_fallbacks'] += 1
             if tok is None and getattr(self, '_merge_node', None) is not None:
-                self.no_merge_nodes.add(self._merge_node)       # heuristic: do not retry merging this statement
+                # heuristic: stop retrying a statement whose arms repeatedly fail to merge (a single failure can be
+                # contextual, e.g. one iteration of a loop)
+                n_fail = self._merge_fail.get(self._merge_node, 0) + 1
+                self._merge_fail[self._merge_node] = n_fail
+                if n_fail >= self.merge_fail_limit:
+                    self.no_merge_nodes.add(self._merge_node)
             if tok is None:
                 self.pending = [p for p in self.pending
                                 if not (len(p) > self.pos and isinstance(p[self.pos], tuple) and p[self.pos][0] == 'X'
@@ -994,6 +1025,12 @@ class Engine:
         return SymRange(*args)
 
     def call_native(self, f, args, kwargs):
+        try:
+            c = self.contracts.get(f)
+        except TypeError:
+            c = None
+        if c is not None:
+            return c(self, *args, **kwargs)
         m = NATIVE_MODELS.get(f)
         if m is not None:
             return m(self, *args, **kwargs)
@@ -1009,6 +1046,8 @@ class Engine:
                 if isinstance(slf, (list, dict, tuple, str, bytes)) and name in (
                         'append', 'get', 'count', 'index', 'items', 'keys', 'values', 'pop', 'extend', 'format',
                         'startswith', 'join', 'copy', 'insert'):
+                    if name in ('append', 'pop', 'extend', 'insert') and self._is_foreign_mutable(slf):
+                        self.note_write('%s()' % name, slf)
                     try:
                         return f(*args, **kwargs)
                     except HOST_ERRORS as e:
@@ -1139,6 +1178,16 @@ class Engine:
             raise _Continue()
         elif t is ast.Try:
             self.try_stmt(s, env, g)
+        elif t is ast.With:
+            # context managers only as resource brackets (file objects of the modelled `open`): the body runs once,
+            # __enter__ returns the object itself, __exit__ does not swallow exceptions
+            for it in s.items:
+                cm = self.ev(it.context_expr, env, g)
+                if not getattr(cm, 'is_resource_model', False):
+                    raise OutOfSubset('with-statement over %s' % type(cm).__name__)
+                if it.optional_vars is not None:
+                    self.assign(it.optional_vars, cm, env, g)
+            self.block(s.body, env, g)
         elif t in (ast.Import, ast.ImportFrom):
             raise OutOfSubset('import inside function')
         else:
@@ -1335,10 +1384,13 @@ class Engine:
                 return d.__func__
             if isinstance(d, classmethod):
                 return BoundM(d.__func__, o)
+        if (id(o), name) in getattr(self, 'foreign_store', {}):
+            return self.foreign_store[(id(o), name)]
         try:
             v = getattr(o, name)
         except AttributeError as e:
             raise PyRaise(self.make_exc(AttributeError, str(e)))
+        self.note_read('attribute', '%s.%s' % (getattr(o, '__name__', type(o).__name__), name), v)
         return self.subst.get(id(v), v)
 
     def hasattr(self, o, name):
@@ -1358,6 +1410,8 @@ class Engine:
                     if d.fset is None:
                         raise PyRaise(self.make_exc(AttributeError, "can't set attribute '%s'" % name))
                     return self.call(d.fset, [o, v], {})
+            if id(o) in getattr(self, 'foreign_objs', ()):
+                self.note_write('attribute store .%s' % name, o)        # an engine object standing for state the unit does not own
             o.attrs[name] = v
             self.writes += 1
             return
@@ -1365,6 +1419,12 @@ class Engine:
             return o.sym_setattr(self, name, v)
         if o is None or is_intlike(o) or isinstance(o, (tuple, str)):
             raise PyRaise(self.make_exc(AttributeError, "'%s' object has no attribute '%s'" % (type(o).__name__, name)))
+        if getattr(self, 'shadow_foreign_stores', False) and self._is_foreign_mutable(o):
+            # frame units: the store is recorded as an ownership violation and kept in a shadow map
+            self.note_write('attribute store .%s' % name, o)
+            self.foreign_store[(id(o), name)] = v
+            self.writes += 1
+            return
         raise OutOfSubset('attribute store on native %s' % type(o).__name__)
 
     def getitem(self, o, k):
@@ -1424,6 +1484,10 @@ class Engine:
 
     def setitem(self, o, k, v):
         self.writes += 1
+        if isinstance(o, (list, dict, bytearray)) and self._is_foreign_mutable(o):
+            # state outside the unit: the write is an ownership violation; the host object itself is left alone
+            self.note_write('item store', o)
+            return
         if isinstance(o, Obj):
             si = self._lookup_special(o.cls, '__setitem__')
             if si is None:
@@ -1593,6 +1657,7 @@ class Engine:
                 raise PyRaise(self.make_exc(UnboundLocalError, "local variable '%s' referenced before assignment" % e.id))
             if e.id in g:
                 v = g[e.id]
+                self.note_read('global', e.id, v)
                 return self.subst.get(id(v), v)
             try:
                 return getattr(builtins, e.id)
